@@ -318,6 +318,17 @@ Definition map_of_barg (h : heap) (b : barg) : option (list (value * value)) :=
 
 Definition is_print_approx (r : N) : bool := negb ((r =? 8232) || (r =? 8233)).
 
+(* the value of a call is the value of the first return reached: follow the
+   chain of return wrappers that carried it out of the nested blocks *)
+Fixpoint unwrap_ret (fuel : nat) (v : value) : value :=
+  match fuel with
+  | O => v
+  | S f => match v with
+           | VRet vs => match vs with [] => v | _ => unwrap_ret f (last vs VNil) end
+           | x => x
+           end
+  end.
+
 (* The evaluator is written with open recursion: every function takes the
    record [self] of all functions at the next lower fuel.  [evals_at] ties the
    knot by structural recursion on fuel. *)
@@ -756,12 +767,16 @@ Definition eval_call_step (self : evals) (st : state) (fn : expr) (callee : opti
 
 Definition user_call_step (self : evals) (st : state) (params : list bytes) (body : block) (args : list expr) : R :=
       if Nat.ltb (length args) (length params) then fail st else
-      let octx := scur st in
-      let '(st1, n) := cnew st in
+      (* the arguments are evaluated in the caller's scope, before any parameter is bound *)
+      let+ (vals, st0) := r_eval_list self st (firstn (length params) args) in
+      let octx := scur st0 in
+      let '(st1, n) := cnew st0 in
+      let st2 := set_all (with_cur st1 n) n (combine params vals) in
       rfinal (fun s => with_cur s octx)
-        (let+ (u, st2) := r_bind_params self (with_cur st1 n) params args in
-         r_eval_block self st2 body).
+        (let+ (r, st3) := r_eval_block self st2 body in
+         ROk (unwrap_ret 4000 r, st3)).
 
+(* kept for the record of the old behaviour; no longer used by user_call *)
 Definition bind_params_step (self : evals) (st : state) (params : list bytes) (args : list expr) : R :=
       match params, args with
       | [], _ => ROk (VNil, st)
